@@ -1819,6 +1819,8 @@ class HDKey(Key):
                     raise BKeyError('Cannot import public Key in HDKey')
                 key = import_key.private_byte
                 key_type = 'private'
+                if network is None:
+                    network = import_key.network
             else:
                 kf = get_key_format(import_key)
                 if kf['format'] == 'address':
